@@ -11,16 +11,25 @@ Binding A: TLC-exported (k[l][w][g] in ln 2 units, rational weights, a second cr
 Binding B: random tables / weights / atmospheres through both modes; every event validated by TLC
       (unit interval, Jensen bound against the weight-averaged coefficient, exact weighted average on
       integer paths, degenerate equality, hot/cold bounds in k-table mode) + canary.
+Binding C (histories): spec/KTableHistory.tla (design + mutants: memo keyed on size / first point / without (T,P),
+      opacity mode latched at construction) and spec/Functional.tla walks (harness/history.py) replayed on
+      long-lived table objects and long-lived models of both families (harness/fx_c20hist.py): requested grid
+      (full, equal lengths at different positions, same start, same ends, between / beyond native points),
+      temperature / pressure, mixing ratios, T parameter, opacity mode switch, table directory; every
+      evaluation equals a fresh object's AND is paired with its cross-section twin (`twin` events of
+      Trace_KTable.tla: equality for degenerate tables, Jensen bound for generic tables) + canaries.
 """
 import math
 import os
 import random
+import re
 from fractions import Fraction
 
 import numpy as np
 
-from ..core import Machinery, frac, close, validate_trace
+from ..core import Machinery, frac, close, validate_trace, run_tlc
 from .. import fx_emission as fx
+from .. import fx_c20hist as fh
 from ..fixtures import GridOpacity
 
 WN = [800.0, 2500.0]
@@ -250,7 +259,7 @@ def random_weights(rng, ng):
     return [v / s for v in r]
 
 
-def run_traces(ctx, n_models):
+def run_traces(ctx, n_models, extra=()):
     rng = random.Random(ctx.seed * 130363 + 20)
     events, meta = [], {}
 
@@ -359,6 +368,8 @@ def run_traces(ctx, n_models):
                 code_raised(ctx, ex, 'trace:model', vec)
                 fx.set_mode('xsec')
     fx.reset_all()
+    for ev, cls, detail, vec in extra:          # `twin` events of the history walks (binding C)
+        add(dict(ev), cls, detail, vec)
     if not events:
         if ctx.clauses.get('evaluates_without_error', {}).get('bad'):
             return          # every model raised: already reported as violations
@@ -376,16 +387,105 @@ def run_traces(ctx, n_models):
     # canaries
     j = [e for e in events if e['ev'] == 'jensen' and e['id'] not in badids]
     wv = [e for e in events if e['ev'] == 'wavg' and e['id'] not in badids]
-    if not j or not wv:
+    if n_models and (not j or not wv):
         raise Machinery('no event available for the canary')
-    c1 = dict(j[0])
-    c1['tk'] = list(c1['tk'])
-    c1['tk'][0] = c1['tx'][0] - 50
-    c2 = dict(wv[0])
-    c2['m'] = c2['m'] + 40
-    ok2, bad2, _ = validate_trace('Trace_KTable', 'Trace_KTable.cfg', [c1, c2])
-    if ok2 or len(bad2) != 2:
+    can = []
+    if j and wv:
+        c1 = dict(j[0])
+        c1['tk'] = list(c1['tk'])
+        c1['tk'][0] = c1['tx'][0] - 50
+        c2 = dict(wv[0])
+        c2['m'] = c2['m'] + 40
+        can += [c1, c2]
+    tw = [e for e in events if e['ev'] == 'twin' and e['id'] not in badids]
+    te = [e for e in tw if e['rel'] == 'equal' and e['slack'] == 0]
+    tj = [e for e in tw if e['rel'] == 'jensen']
+    if extra and not te and not ctx.has_violations():
+        raise Machinery('no accepted twin event available for the canary')
+    if te:                                       # a twin differing by 2e-9, a twin on a grid of another length
+        can += [dict(te[0], dev=2000), dict(te[-1], nx=te[-1]['nx'] + 1)]
+    if tj:
+        can += [dict(tj[0], lo=-50)]
+    ok2, bad2, _ = validate_trace('Trace_KTable', 'Trace_KTable.cfg', can) if can else (False, can, None)
+    if can and (ok2 or len(bad2) != len(can)):
         raise Machinery('canary accepted: Trace_KTable is vacuous')
+
+
+# ----------------------------------------------------------------------------
+# binding C: histories
+# ----------------------------------------------------------------------------
+MUTANTS = ('RefuteSize', 'RefuteFirst', 'RefuteWindowTwin', 'RefuteLatched')
+
+
+def check_history_design(ctx):
+    """KTableHistory: the invariants hold without a memo and with a memo keyed on the requested points / on
+    their end points; every under-keyed memo and the latched opacity mode are refuted by the window alphabet."""
+    ctx.check_spec('history-design', 'MC_KTableHistory', 'MC_KTableHistory_hold.cfg', workers=4,
+                   need_actions=('SetWin', 'SetTP', 'SetMode', 'Eval'))
+    res = run_tlc('MC_KTableHistory', 'MC_KTableHistory_mutants.cfg', workers=4, allow_violation=True, extra=['-continue'])
+    ctx.add_tlc('history-design-mutants', res, counts=False)
+    got = set(re.findall(r'Invariant (\S+) is violated', res.out))
+    if set(MUTANTS) - got or got - set(MUTANTS):
+        raise Machinery('KTableHistory mutants: expected TLC to refute exactly %r, got %r' % (sorted(MUTANTS), sorted(got)))
+
+
+def run_histories(ctx, nwalks, thorough):
+    from .. import history
+    log = fh.TwinLog(ctx)
+    with fx.TempDir() as root:
+        fx.reset_all()
+        try:
+            scs = fh.scenarios(ctx, root, log, thorough=thorough)
+            n = history.run_history(ctx, scs, nwalks)
+            if not ctx.has_violations():
+                fh.self_check(scs, log)
+        finally:
+            fx.reset_all()
+    ctx.note('binding C: %d history walks over %d scenarios, %d twin evaluations (%d under the exp(-10) licence)'
+             % (n, len(scs), len(log.events), log.licensed))
+    ctx.add_sample(dict(history_scenarios=[x.name for x in scs]))
+    return log
+
+
+def replay_histories(ctx, vs):
+    from ..history import digest
+    log = fh.TwinLog(ctx)
+    with fx.TempDir() as root:
+        fx.reset_all()
+        try:
+            scs = {x.name: x for x in fh.scenarios(ctx, root, log, thorough=True)}
+            for v in vs:
+                vec = v['vector']
+                sc = scs.get(vec['history'])
+                if sc is None:
+                    raise Machinery('replay: unknown history scenario %r' % vec['history'])
+
+                def value(d, text):
+                    for x in sc.dims[d]:
+                        if repr(x) == text or x == text or repr(x) == repr(text):
+                            return x
+                    raise Machinery('replay: %r is not a value of setting %d of %s' % (text, d, sc.name))
+                vals = [value(d, x) for d, x in enumerate(vec['init'])]
+                obj = sc.fresh(list(vals))
+                ok = True
+                for step in vec['trail']:
+                    if step.startswith('set'):
+                        d, text = step[3:].split('=', 1)
+                        vals[int(d)] = value(int(d), text)
+                        sc.set(obj, int(d), vals[int(d)], list(vals))
+                    elif step.startswith('eval'):
+                        try:
+                            ok = digest(sc.observe(obj)) == digest(sc.observe(sc.fresh(list(vals)))) and ok
+                        except Machinery:
+                            raise
+                        except Exception:
+                            ok = False
+                ctx.verdict('history_independent', ok, cls='%s:replay' % sc.name,
+                            detail='replay of the walk %r from %r' % (vec['trail'], vec['init']), vector=vec)
+        finally:
+            fx.reset_all()
+    if log.events:
+        run_traces(ctx, 0, extra=log.events)
 
 
 def run(ctx):
@@ -394,26 +494,45 @@ def run(ctx):
                       exhaustive='2..3 layers, 1..2 wavenumbers, 2..3 quadrature points, k over {0,1,2,3,5,15} ln2, 5 weight sets, '
                                  'second contribution over {0,1,15}, chord multipliers 1..3',
                       vectors='3 layers x 2 wavenumbers x 2 points and 2 layers x 3 points; degenerate and generic rows; pickle k-tables',
-                      traces='random tables 2..12 layers, 1..6 points, Gauss-Legendre and random weights')
+                      traces='random tables 2..12 layers, 1..6 points, Gauss-Legendre and random weights',
+                      histories='TLC-generated walks (depth 9) over <= 3 settings x <= 3 values on long-lived table objects and '
+                                '6-layer transmission / emission models: 41-point uniform, 37-point constant-resolution and '
+                                '21-point coarse native grids; degenerate tables with 2, 3, 4 points, one generic table')
     ctx.assumptions = ['k-table files: PickleKTable layout written by the harness; pressure grid = layer pressures, values constant in T',
                        'cross-section twin: GridOpacity fixture on the same grid and numbers',
                        'per-layer coefficients are scaled with the model\'s documented deltaz and densityProfile',
                        'the exp(-10) clamp of the cross-section emission branch is a licensed slack in the degenerate comparison',
-                       'TLC + CommunityModules; exported term lists evaluated with Python Fractions']
+                       'TLC + CommunityModules; exported term lists evaluated with Python Fractions',
+                       'histories: every object owns the table objects it has loaded (installed in the cache singletons through '
+                       'clear_cache / add_opacity for its own evaluations); results compared after rounding to 11 digits; '
+                       'the cross-section twin of a generic table is its weight-averaged coefficient (linear interpolation)']
     for cfg in (['MC_KTable_quick.cfg', 'MC_KTable_quick3.cfg'] if q else
                 ['MC_KTable_quick.cfg', 'MC_KTable_thorough.cfg', 'MC_KTable_thorough3.cfg']):
         ctx.check_spec('exhaustive-' + cfg[10:-4], 'MC_KTable', cfg, deque=True, need_actions=('KTransmit', 'KEmit'))
+    check_history_design(ctx)
     ctx.exhaustive = True
     ctx.expect_refuted('refute-unnormalised-weights', 'MC_KTable', 'MC_KTable_refute_weights.cfg', 'RefuteUnnormalised')
     for cfg in (['EX_KTable_quick.cfg', 'EX_KTable_quick3.cfg'] if q else ['EX_KTable_thorough.cfg', 'EX_KTable_quick3.cfg']):
         run_vectors(ctx, cfg, cfg[3:-4])
-    run_traces(ctx, 40 if q else 400)
+    log = run_histories(ctx, 6 if q else 40, not q)
+    run_traces(ctx, 40 if q else 400, extra=log.events)
 
 
 def replay(ctx, violations):
     done_trace = False
+    hist = [v for v in violations if (v['vector'] or {}).get('history')]
+    if hist:
+        seen, uniq = set(), []
+        for v in hist:
+            key = repr((v['vector']['history'], v['vector']['init'], v['vector']['trail']))
+            if key not in seen:
+                seen.add(key)
+                uniq.append(v)
+        replay_histories(ctx, uniq)
     for v in violations:
         vec = v['vector'] or {}
+        if vec.get('history'):
+            continue
         if vec.get('trace'):
             if not done_trace:
                 ctx.seed = vec.get('seed', ctx.seed)
